@@ -105,7 +105,7 @@ class RoundMonitor:
     def observe(self, kind, data):
         if kind == "send":
             src, dest, msg, prio, mid = data
-            if prio == 19:  # re-injection by the destination itself, not a new message
+            if prio is not None and 18 < prio <= 19:  # re-injection by the destination itself, not a new message
                 return
             self.sent.setdefault((dest, src, getattr(msg, "cycle_id", None)), []).append(msg)
         elif kind == "deliver":
